@@ -1145,6 +1145,9 @@ impl CWIL {
         if let Some((_, bl)) = self.limits.last() {
             if bl == &block {
                 self.limits.pop();
+                // only the innermost limit can be exceeded: once it is gone,
+                // counting must resume for the enclosing limits
+                self.inference_limit_exceeded = false;
             }
         }
 
